@@ -288,6 +288,7 @@ func RunScenario(t *testing.T, sc *Scenario) *Outcome {
 			cancel()
 			synctest.Wait()
 			out.GorAfter = bubbleGoroutines()
+			drainLeftBehind(out.GorBefore)
 		})
 	}()
 	if world.Sack != nil {
@@ -327,6 +328,17 @@ func scenarioBoundNoLag(sc *Scenario) time.Duration {
 // bubbleGoroutines counts the goroutines that live in a synctest bubble (the runtime tags them in their
 // stack header). runtime.NumGoroutine also counts the runtime's own background goroutines, which come
 // and go on a busy machine and made the leak check flaky.
+// drainLeftBehind gives goroutines the call left behind (virtual) time to finish. What they do after the return
+// belongs to the ledger (a fault that fires later, a handle used after the return), and the bubble's clock
+// stops once its main goroutine has returned: sleeping leftovers would otherwise end the case as a deadlock.
+// Nothing happens when nothing was left behind.
+func drainLeftBehind(before int) {
+	for i := 0; i < 900 && bubbleGoroutines() > before; i++ {
+		time.Sleep(time.Second)
+		synctest.Wait()
+	}
+}
+
 func bubbleGoroutines() int {
 	buf := make([]byte, 1<<20)
 	for {
